@@ -95,6 +95,24 @@ fn attr_id(i: usize) -> bevy::render::mesh::MeshVertexAttribute {
     }
 }
 
+/// the same mesh with every third float lane of every float attribute set to +0.0 (`negative = false`) or -0.0
+fn zero_variant(mesh: &Mesh, negative: bool) -> Mesh {
+    let mut m = mesh.clone();
+    for i in 0..8 {
+        if ATTRS[i].2 {
+            continue;
+        }
+        let Some(vals) = mesh.attribute(attr_id(i)) else { continue };
+        let mut bytes = vals.get_bytes().to_vec();
+        for k in (0..bytes.len() / 4).step_by(3) {
+            let z: u32 = if negative { 0x8000_0000 } else { 0 };
+            bytes[4 * k..4 * k + 4].copy_from_slice(&z.to_le_bytes());
+        }
+        set_attr(&mut m, i, &bytes);
+    }
+    m
+}
+
 fn special_floats(rng: &mut Rng, n: usize) -> Vec<u8> {
     const S: [u32; 12] = [
         0x7FC00000, 0x7FC00001, 0x7F800001, 0xFFC12345, 0x7F800000, 0xFF800000, 0x80000000,
@@ -421,7 +439,15 @@ fn mesh_cases(out: &mut Out, rng: &mut Rng, seed: u64, count: usize, thorough: b
         };
         out.stat(&format!("mesh.size_class.{}", if nv <= 3 { "tiny" } else if nv <= 300 { "small" } else if nv <= 4500 { "medium" } else { "large" }));
         let m = gen_mesh(rng, &mut images, None, nv, out);
+        // now and then two meshes that differ only in the sign of their zero floats, encoded back to back (`0.0 == -0.0`:
+        // anything that compares meshes with `==` between two encodings confuses them)
+        let pair = if rng.chance(1, 5) { Some((zero_variant(&m, false), zero_variant(&m, true))) } else { None };
         emit(out, rng, m, n);
+        if let Some((a, b)) = pair {
+            out.stat("mesh.signed_zero_pair");
+            emit(out, rng, a, 1_000_000 + n);
+            emit(out, rng, b, 2_000_000 + n);
+        }
         n += 1;
     }
     // huge meshes (uncompressed image of 1 .. 40 MiB, around the powers of two): implementation oracle only,
